@@ -1265,6 +1265,10 @@ class Node:
         self.remove_peer_connection(conn, disconnect_reason)
 
     def receive_cea(self, conn: PeerConnection, message: CapabilitiesExchangeAnswer):
+        if conn.state != PEER_CONNECTED:
+            # a CEA is only expected as the answer to our CER
+            self.logger.warning(f"{conn} received an unexpected CEA, ignoring")
+            return
         if message.result_code != constants.E_RESULT_CODE_DIAMETER_SUCCESS:
             self.logger.warning(
                 f"{conn} CER rejected with {message.result_code} (message: "
